@@ -442,6 +442,8 @@ func c19Extra(p *Prog, r *Report) {
 	}
 	r.Floor("R7", "calls into the period library", nP, 2)
 	customDecoderFresh(p, r, "R8")
+	customDecoderRejectsOnlySyntax(p, r, "R12")
+	c19Round6(p, r, "R13", "R14", "R15")
 }
 
 // customDecoderFresh: a custom UnmarshalJSON decodes into a fresh local value and
@@ -644,4 +646,138 @@ func noClampRule(p *Prog, r *Report, rule string) {
 		r.Check(rule, FnName(fn)+"|computed-duration-unmodified", bad == "" && nRet > 0, p.Pos(fn.Pos()), fmt.Sprintf("%d successful returns; %s", nRet, bad))
 	}
 	r.Floor(rule, "functions computing a remaining duration", n, 1)
+}
+
+// customDecoderRejectsOnlySyntax: a custom UnmarshalJSON of the data model fails only when encoding/json itself
+// fails. A decoder that adds its own rejection (a value it cannot interpret) makes json.Unmarshal of the *whole*
+// datagram fail: a schema-legal message is dropped before its header is looked at — its msgCounterReference is never
+// processed, nothing is answered.
+func customDecoderRejectsOnlySyntax(p *Prog, r *Report, rule string) {
+	r.Rule(rule, "a custom JSON decoder of the data model returns an error only if encoding/json reported one: every non-nil error it returns is the result of a json.Unmarshal call (a decoder rejecting values it cannot interpret makes the whole datagram undecodable — the message is dropped, its reference never processed)")
+	n := 0
+	for _, fn := range p.RepoFns("model", "spine") {
+		if (fn.Name() != "UnmarshalJSON" && fn.Name() != "UnmarshalText") || fn.Signature.Recv() == nil || fn.Blocks == nil {
+			continue
+		}
+		n++
+		t := map[ssa.Value]bool{}
+		forEachCall(fn, func(site ssa.CallInstruction) {
+			callee := site.Common().StaticCallee()
+			if callee != nil && fnPkgPath(callee) == "encoding/json" {
+				if v, ok := site.(ssa.Value); ok {
+					for k := range forwardTaint(v) {
+						t[k] = true
+					}
+				}
+			}
+		})
+		var bad []string
+		nres := fn.Signature.Results().Len()
+		for _, as := range resultAssignments(fn, nres-1) {
+			if c, isC := as.Val.(*ssa.Const); isC && c.IsNil() {
+				continue
+			}
+			if !t[as.Val] {
+				bad = append(bad, fmt.Sprintf("%s at %s", Path(as.Val), p.Pos(as.Pos)))
+			}
+		}
+		r.Check(rule, FnName(fn)+"|errors-from-json-only", len(bad) == 0, p.Pos(fn.Pos()), fmt.Sprintf("errors returned that do not come from encoding/json: %v", bad))
+	}
+	r.Floor(rule, "custom decoders", n, 1)
+}
+
+// c19Round6: the duration reader and the producers of textual time forms.
+func c19Round6(p *Prog, r *Report, ruleParse, ruleRound, ruleCtor string) {
+	if ruleParse != "" {
+		r.Rule(ruleParse, "the duration reader lets the period parser normalise: period.Parse is called without 'normalise=false' (unnormalised, hour counts beyond the library's 16-bit fields overflow and the value is rejected)")
+	}
+	if ruleRound != "" {
+		r.Rule(ruleRound, "the duration reader returns what the parser computed: the function that calls period.Parse does not round or truncate the duration it returns (a 1.5 s timeout read back as 2 s exceeds the announced value)")
+	}
+	if ruleCtor != "" {
+		r.Rule(ruleCtor, "textual time forms are produced by the data model's constructors only: outside package model no computed string is converted into DurationType, DateTimeType, DateType, TimeType or AbsoluteOrRelativeTimeType (a hand-written \"PT%dS\" truncates what NewDurationType renders exactly)")
+	}
+	nParse, nConv := 0, 0
+	for _, fn := range p.RepoFns("model", "spine", "util") {
+		if fn.Blocks == nil {
+			continue
+		}
+		callsParse := false
+		forEachCallOwn(fn, func(site ssa.CallInstruction) {
+			callee := site.Common().StaticCallee()
+			if callee == nil || !strings.HasSuffix(fnPkgPath(callee), "/period") || callee.Name() != "Parse" {
+				return
+			}
+			callsParse = true
+			nParse++
+			if ruleParse == "" {
+				return
+			}
+			args := site.Common().Args
+			okNorm := true
+			if len(args) >= 2 {
+				// variadic normalise ...bool: a slice literal holding the constant false
+				for _, e := range variadicElems(args[1]) {
+					if b, isB := constBool(e); isB && !b {
+						okNorm = false
+					}
+				}
+			}
+			r.Check(ruleParse, FnName(fn)+"|normalising-parse", okNorm, p.InstrPos(site.(ssa.Instruction)), "period.Parse is called with normalisation switched off: "+fmt.Sprint(!okNorm))
+		})
+		if callsParse && ruleRound != "" {
+			var bad []string
+			forEachCallOwn(fn, func(site ssa.CallInstruction) {
+				callee := site.Common().StaticCallee()
+				if callee == nil || fnPkgPath(callee) != "time" || callee.Signature.Recv() == nil {
+					return
+				}
+				if callee.Name() == "Round" || callee.Name() == "Truncate" {
+					bad = append(bad, callee.Name()+" at "+p.InstrPos(site.(ssa.Instruction)))
+				}
+			})
+			r.Check(ruleRound, FnName(fn)+"|value-unmodified", len(bad) == 0, p.Pos(fn.Pos()), fmt.Sprintf("the parsed duration is rounded or truncated before it is returned: %v", bad))
+		}
+		if ruleCtor != "" && fn.Pkg != nil && !strings.HasSuffix(fn.Pkg.Pkg.Path(), "/model") {
+			for _, b := range fn.Blocks {
+				for _, ins := range b.Instrs {
+					var x ssa.Value
+					var to types.Type
+					switch v := ins.(type) {
+					case *ssa.ChangeType:
+						x, to = v.X, v.Type()
+					case *ssa.Convert:
+						x, to = v.X, v.Type()
+					}
+					if x == nil {
+						continue
+					}
+					tn := namedOf(to)
+					if tn == nil || tn.Obj().Pkg() == nil || !strings.HasSuffix(tn.Obj().Pkg().Path(), "/model") {
+						continue
+					}
+					switch tn.Obj().Name() {
+					case "DurationType", "DateTimeType", "DateType", "TimeType", "AbsoluteOrRelativeTimeType":
+					default:
+						continue
+					}
+					if bt, isB := x.Type().Underlying().(*types.Basic); !isB || bt.Info()&types.IsString == 0 {
+						continue
+					}
+					nConv++
+					_, isConst := x.(*ssa.Const)
+					r.Check(ruleCtor, fmt.Sprintf("%s|%s-from-text", FnName(fn), tn.Obj().Name()), isConst, p.InstrPos(ins), "a string computed outside the data model ("+Path(x)+") is taken as "+tn.Obj().Name())
+				}
+			}
+		}
+	}
+	if ruleParse != "" {
+		r.Floor(ruleParse, "calls of period.Parse", nParse, 1)
+	}
+	if ruleCtor != "" {
+		r.Stat(ruleCtor+".conversions of text into temporal types outside package model", nConv)
+		if nConv == 0 {
+			r.Pass(ruleCtor, "spine|temporal-text", "", "no conversion of a string into a temporal type outside package model")
+		}
+	}
 }
